@@ -89,7 +89,11 @@ func c13Eval(ctx *cue.Context, cs *c13Case, doGen bool) {
 	defer func() {
 		cs.evalMillis = time.Since(t0).Milliseconds()
 		if p := recover(); p != nil {
-			cs.importErr = "panic"
+			kind := "other"
+			if strings.Contains(fmt.Sprint(p), "is *errors.wrapped, not *adt.ValueError") {
+				kind = "disjunctError-wrapped-not-ValueError"
+			}
+			cs.importErr = "panic:" + kind
 		}
 	}()
 	se, err := cuejson.Extract("schema.json", []byte(cs.schemaTxt))
@@ -277,9 +281,9 @@ func c13Emit(c *Cfg, cs *c13Case) {
 	}
 	if cs.importErr != "" {
 		c.Count("import-outcome:" + cs.importErr)
-		if cs.importErr == "panic" {
+		if strings.HasPrefix(cs.importErr, "panic:") {
 			// a panic out of the public API is never acceptable
-			c.Direct(false, "extract-panic", "jsonschema.Extract / BuildFile panicked on "+cs.schemaTxt, map[string]string{"schema": cs.schemaTxt})
+			c.Direct(false, "extract-"+cs.importErr, "jsonschema.Extract / BuildFile / Unify panicked ("+cs.importErr+") on "+cs.schemaTxt, map[string]string{"schema": cs.schemaTxt})
 		}
 		return
 	}
